@@ -1,5 +1,6 @@
 import SV.Driver.Util
 import SV.Model.LayerLife
+import SV.Model.FsMount
 /-
 svdriver_c12: line protocol for the C12 model (layer life cycle behind fs/layer.Resolver).
   new                                       -> ok                       fresh Resolver
@@ -14,6 +15,20 @@ svdriver_c12: line protocol for the C12 model (layer life cycle behind fs/layer.
 new status: c layer closed, R reader closed, M metadata closed, F fs cache closed (directory gone),
 B its blob closed, H its blob's http cache closed (directory gone); each 0/1.
 Holders are numbered by the harness in the order of successful resolves.
+
+Holder side (fs/fs.go, model SV.Model.FsMount), its own state, ops prefixed `fsm-`:
+  fsm-new                                   -> ok                       fresh filesystem + resolver
+  fsm-mount <mp> <name> <lchk bchk bres mres as 4 chars> <disableVerif><allowNoVerif> <toc a|u|g|w> <skipLabel> <fuse> <neigh>
+        <neigh> = - | name:bits,name:bits,…   (the other layers of the manifest with their oracles)
+        -> ok | err   <ftail>      (model classes err-resolve / err-verify / err-rootnode / err-fuse: one wire class)
+  fsm-mount-nosrc <mp>                      -> err-src <ftail>
+  fsm-check <mp> <probe> <reg>              -> ok | err   <ftail>
+  fsm-unmount <mp>                          -> ok | err   <ftail>
+  fsm-unmount-empty                         -> err-empty <ftail>
+  fsm-expire l|b <name>                     -> unit <ftail>
+<ftail> = m=<mp:group:open,…|-> fs=<#fscache dirs> http=<#httpcache dirs> k=<#kernel mounts>
+`m` lists fs.layer sorted by mountpoint; entries with one layer instance share a group number
+(groups numbered in order of first appearance); open = the entry's layer passes Check() (registry up).
 -/
 namespace SV.Driver.C12
 open SV.Driver SV.LayerLife SV.Refcount
@@ -21,6 +36,7 @@ open SV.Driver SV.LayerLife SV.Refcount
 structure St where
   s : State := {}
   holders : List Nat := []      -- holder# -> closure (token) of the layer cache
+  fm : SV.FsMount.State := {}   -- holder side (fsm- ops)
 
 def b01 (b : Bool) : String := if b then "1" else "0"
 
@@ -84,7 +100,100 @@ def parseOp? (st : St) : List String → Option Op
   | ["readold", h] => do some (.readOld (← st.holders[← parseNat? h]?))
   | _ => none
 
+/-! ### holder side: fsm- ops -/
+
+def parseBits? (s : String) : Option Oracle :=
+  match s.toList with
+  | [a, b, c, d] => do
+    some ⟨← parseBool? (String.singleton a), ← parseBool? (String.singleton b),
+          ← parseBool? (String.singleton c), ← parseBool? (String.singleton d)⟩
+  | _ => none
+
+def parseToc? : String → Option SV.FsMount.Toc
+  | "a" => some .absent
+  | "u" => some .unparsable
+  | "g" => some .good
+  | "w" => some .wrong
+  | _ => none
+
+def parseNeigh? (s : String) : Option (List (Nat × Oracle)) :=
+  if s == "-" then some []
+  else (s.splitOn ",").mapM fun w =>
+    match w.splitOn ":" with
+    | [n, b] => do some (← parseNat? n, ← parseBits? b)
+    | _ => none
+
+def insertSorted (p : Nat × Nat) : List (Nat × Nat) → List (Nat × Nat)
+  | [] => [p]
+  | q :: r => if p.1 ≤ q.1 then p :: q :: r else q :: insertSorted p r
+
+def ftail (f : SV.FsMount.State) : String :=
+  let ents := f.layer.foldl (fun acc p => insertSorted p acc) []
+  let lids := ents.map fun p => (layerOfTok f.ll p.2).getD 0
+  let groups := lids.foldl (fun (acc : List Nat) l => if acc.contains l then acc else acc ++ [l]) []
+  let strs := ents.map fun p =>
+    let lid := (layerOfTok f.ll p.2).getD 0
+    s!"{p.1}:{groups.idxOf lid}:{b01 (SV.FsMount.holderCheck f.ll p.2 true)}"
+  let m := if strs.isEmpty then "-" else ",".intercalate strs
+  s!" m={m} fs={f.ll.fsDirs} http={f.ll.httpDirs} k={f.kmounts.length}"
+
+def showRes : SV.FsMount.Res → String
+  | .ok => "ok"
+  | .errSrc => "err-src"
+  | .errResolve => "err-resolve"
+  | .errVerify => "err-verify"
+  | .errRootNode => "err-rootnode"
+  | .errFuse => "err-fuse"
+  | .errNotRegistered => "err-notregistered"
+  | .errCheck => "err-check"
+  | .errEmpty => "err-empty"
+  | .errNotMounted => "err-notmounted"
+  | .errUmount => "err-umount"
+  | .unit => "unit"
+
+/-- What travels on the wire: the harness cannot tell WHY the Go call failed without matching error
+texts, so Mount / Check / Unmount failures are one class each (`err`); the two argument errors that
+the harness provokes on purpose keep their name. -/
+def wireRes : SV.FsMount.Res → String
+  | .ok => "ok"
+  | .unit => "unit"
+  | .errSrc => "err-src"
+  | .errEmpty => "err-empty"
+  | _ => "err"
+
+def parseFsm? : List String → Option SV.FsMount.Op
+  | ["fsm-mount", mp, n, bits, va, toc, sk, fu, ng] => do
+    let (dis, allow) ← match va.toList with
+      | [a, b] => do some (← parseBool? (String.singleton a), ← parseBool? (String.singleton b))
+      | _ => none
+    some (.mount (← parseNat? mp)
+      { name := ← parseNat? n, o := ← parseBits? bits, neigh := ← parseNeigh? ng, disableVerif := dis,
+        allowNoVerif := allow, toc := ← parseToc? toc, skipLabel := ← parseBool? sk, fuse := ← parseBool? fu })
+  | ["fsm-mount-nosrc", mp] => do some (.mountNoSrc (← parseNat? mp))
+  | ["fsm-check", mp, p, r] => do some (.check (← parseNat? mp) (← parseBool? p) (← parseBool? r))
+  | ["fsm-unmount", mp] => do some (.unmount (← parseNat? mp))
+  | ["fsm-unmount-empty"] => some .unmountEmpty
+  | ["fsm-expire", "l", n] => do some (.expireL (← parseNat? n))
+  | ["fsm-expire", "b", n] => do some (.expireB (← parseNat? n))
+  | _ => none
+
+def isFsm (ws : List String) : Bool :=
+  match ws with
+  | w :: _ => w.startsWith "fsm-"
+  | [] => false
+
+def stepFsm (st : St) (ws : List String) : St × String :=
+  match ws with
+  | ["fsm-new"] => ({ st with fm := {} }, "ok")
+  | _ =>
+    match parseFsm? ws with
+    | none => (st, "bad-op")
+    | some op =>
+      let (f', r) := SV.FsMount.step st.fm op
+      ({ st with fm := f' }, wireRes r ++ ftail f')
+
 def step (st : St) (ws : List String) : St × String :=
+  if isFsm ws then stepFsm st ws else
   match ws with
   | ["new"] => ({}, "ok")
   | _ =>
